@@ -13,7 +13,7 @@ int main(void)
 {
 	br_ssl_engine_context cc;
 #ifdef NATIVE_REPLAY
-	memset(&cc, 0, sizeof cc);
+	NATIVE_FILL(&cc, sizeof cc);
 #endif
 	cc.iomode = ND_U8();
 	cc.incrypt = ND_U8() & 1;
